@@ -344,7 +344,8 @@ def r7_8(ctx):
     m = f.module
     mw = f.params[2] if len(f.params) > 2 else "max_width"
     try:
-        P = [resolve(p_, keep=("table_width", "widths")) for p_ in Enumerator(f.node, inline_temps=False).run()]
+        from ..yieldpaths import feasible as _feasible
+        P = [q_ for q_ in (resolve(p_, keep=("table_width", "widths")) for p_ in Enumerator(f.node, inline_temps=False).run()) if _feasible(q_)]
     except Unsupported as u:
         raise AnalysisError(f"Table._calculate_column_widths uses a statement the path normal form does not cover ({u})")
     n = 0
